@@ -545,7 +545,8 @@ func (w *world) positions() (pos map[string]string, quiet bool) {
 
 // settle waits until every actor is parked, blocked, reading, awaiting or done.
 // An echo call awaiting on a connection believed healthy is given time to complete.
-func (w *world) settle() map[string]string {
+func (w *world) settle(afterCut bool) map[string]string {
+	start := time.Now()
 	deadline := time.Now().Add(8 * time.Second)
 	var last string
 	stable := 0
@@ -553,6 +554,15 @@ func (w *world) settle() map[string]string {
 	pause := 150 * time.Microsecond
 	for {
 		pos, quiet := w.positions()
+		if quiet && afterCut && time.Since(start) < time.Second {
+			// every connection was just closed by the server: a reader still in its read loop
+			// has not seen the EOF yet
+			for n, p := range pos {
+				if n[0] == 'r' && p == "read" {
+					quiet = false
+				}
+			}
+		}
 		if quiet {
 			// echo callers in await: transient unless the connection is dead
 			waiting := false
